@@ -12,6 +12,7 @@ ASSUMPTIONS = ["1 (quick) / 2 (thorough) source points and 2 target points in [-
                "no two candidate pairs of exactly equal length (the greedy order would be ambiguous); surface labelling and direction enumerated"]
 OUTSIDE = ["the CUDA kernels (not executable here)", "more than 4 points; the 25-candidate cap", "rigid-motion invariance is argued from the formulas (all quantities are distances / inner products of differences with normals) and evaluated on concrete witnesses only",
            "float rounding (A0); float32 storage of the thickness"]
+WITNESS_ONLY = ['rigid-motion invariance of the pairing: evaluated on concrete witnesses only']
 BOUNDS = {"quick": {"sources": 1, "targets": 2}, "thorough": {"sources": 2, "targets": 2}}
 EXPECTED_EXCEPTIONS = ()
 OPTS = {"qtimeout": 8.0, "otimeout": 40.0, "max_paths": 600, "budget_s": 170}
